@@ -359,6 +359,48 @@ pub fn run(ctx: &mut Ctx) {
     }
     case += 1;
 
+    // ---- 3b. the conversions from several threads at once (they are pure functions: what one thread computes must not
+    // depend on what the others are doing)
+    if ctx.mine(case) {
+        ctx.begin(case);
+        let seed = ctx.rng("c07.threads", 0).next();
+        let handles: Vec<_> = (0..8u64)
+            .map(|t| {
+                std::thread::spawn(move || -> Option<String> {
+                    let mut rng = crate::rng::Rng::new(seed ^ t.wrapping_mul(0x9E37_79B9_7F4A_7C15));
+                    let dom = crate::gen::id_domain();
+                    // every thread keeps coming back to a few ids of its own, interleaved with random ones
+                    let own: Vec<u64> = (0..4).map(|_| rng.below(dom)).collect();
+                    for k in 0..60_000u64 {
+                        let id = if k % 3 == 0 { own[(k / 3 % 4) as usize] } else { rng.below(dom) };
+                        let want = R::id_to_zxy(id);
+                        match zxy(id) {
+                            Ok(got) if Some(got) == want.map(|(z, x, y)| (z, x, y)) => {}
+                            other => return Some(format!("thread {t}: zxy({id}) = {other:?}, specification says {want:?}")),
+                        }
+                        if let Some((z, x, y)) = want {
+                            match tile_id(z, x, y) {
+                                v if v == id => {}
+                                v => return Some(format!("thread {t}: tile_id({z},{x},{y}) = {v}, specification says {id}")),
+                            }
+                        }
+                    }
+                    None
+                })
+            })
+            .collect();
+        for h in handles {
+            match h.join() {
+                Ok(None) => ctx.add("conversions_from_concurrent_threads_ok", 60_000),
+                Ok(Some(e)) => ctx.violation("util::zxy", "thread-dependent", "conversion result depends on what other threads are doing", &e, json!({"threads": 8})),
+                Err(_) => ctx.violation("util::zxy", "thread-panic", "a conversion panicked in a thread", "thread panicked", json!({"threads": 8})),
+            }
+        }
+        ctx.case(seed ^ 0x7a7a, true);
+        ctx.end(case);
+    }
+    case += 1;
+
     // ---- 4. lookups by coordinates, in and out of the grid
     let per = ctx.n(12, 400);
     for z in 0..=255u8 {
